@@ -13,13 +13,18 @@
 
     Level: [call_try_response] (Call.v, model of [Call<RecvResponse>::try_response]) for statuses
     101..999 (a bare 100 takes the early return owned by C11); the parser-level theorems cover
-    100..999 and an arbitrary field limit (see also C20).
+    100..999 and an arbitrary field limit (see also C20).  The second half of the file (after review 2:
+    proofs/C05_more.v, C05_hmap.v, C05_rfc_bytes.v, C20_partial_spec.v) adds: the exact condition under
+    which a response is yielded (Content-Length), the field clause without [hm_of_list], prefixes of
+    heads over the limit, the same at [recv_try_response] (Flow.v, model of
+    [Flow<RecvResponse>::try_response]), and well-formedness over RFC byte classes.
 
     KNOWN FINDING (class "partial-redirect", F10): the prefix statement is FALSE for the code under
     test on the class [KnownClass] below; [c05_prefix] is stated outside that class and
     [c05_known_refuted] exhibits a member of the class being returned as a response. *)
-From Hoot Require Import Base Chunk Body Httparse Parser Url Request Call.
+From Hoot Require Import Base Chunk Body Httparse Parser Url Request Call Flow.
 From Hoot.proofs Require Import C05_stable C05_spec C05_roundtrip C20_proofs C05_proofs C05_examples.
+From Hoot.proofs Require Import C05_hmap C05_rfc_bytes C06_proofs C05_more C05_more_examples C20_partial_spec.
 Open Scope N_scope.
 
 (** ** hp_stable: for ARBITRARY bytes [b], [x] and any field limit, a verdict of the httparse model
@@ -154,6 +159,277 @@ Example c05_limit_nonvacuous :
   call_try_response demo_call (render_response_head (many_fields 129)) = Err HttpParseTooManyHeaders.
 Proof. split; [exact (many_fields_wf 129)|]. split; [eexists|]; vm_compute; reflexivity. Qed.
 
+(** * Strengthening after review 2 (proofs/C05_more.v, C05_hmap.v, C05_rfc_bytes.v) *)
+
+(** ** A. "yields a response": heads with a Content-Length field.
+
+    Specification side (proofs/C05_more.v, written without the model): [fields_called k fs] are the fields of the head
+    named [k] case-insensitively, [first_field k fs] the value of the first one, [dec_value] the decimal value
+    of a digit string, [cl_numeric v] := v is 1*DIGIT and denotes a number below 2^64, and
+      [cl_acceptable h] := H has no Content-Length field, or the FIRST one is [cl_numeric].
+    [framing_of m h] is the rule list of C06 ([rfc_body_mode], proofs/C06_proofs.v) applied to H's status and version,
+    the request method [m] and the first textual Content-Length / Transfer-Encoding values of H. *)
+
+(** The model's number parser is the decimal value below 2^64 (promised in DESIGN section 7 for C06). *)
+Theorem c05_dec_value : forall v n,
+  parse_dec_u64 v = Some n <-> v <> [] /\ all_digits v = true /\ dec_value v = n /\ n < U64_LIMIT.
+Proof. exact parse_dec_u64_spec. Qed.
+
+(** H or more, framing acceptable: the response IS yielded, with exactly H's status, version and fields and
+    exactly |H| bytes consumed; the reader installed is the one C06's rule list selects (never its error case). *)
+Theorem c05_complete_cl : forall c h rest,
+  wf_resp_head h -> rh_status h <> 100 -> (List.length (rh_fields h) <= 128)%nat ->
+  cl_acceptable h ->
+  exists rd,
+    framing_of (am_method (c_req c)) h = Ok rd /\
+    call_try_response c (render_response_head h ++ rest) =
+      Ok (set_reader c (Some rd), Some (len (render_response_head h), response_of h)).
+Proof. exact try_response_complete_cl. Qed.
+
+(** H or more, first Content-Length not a number below 2^64 (empty, signed, a non-digit, obs-text, too large):
+    the error, whatever the status, the method and the other fields. *)
+Theorem c05_bad_content_length : forall c h rest v,
+  wf_resp_head h -> rh_status h <> 100 -> (List.length (rh_fields h) <= 128)%nat ->
+  first_field (s2b "content-length") (rh_fields h) = Some v -> ~ cl_numeric v ->
+  call_try_response c (render_response_head h ++ rest) = Err BadContentLengthHeader.
+Proof. exact try_response_bad_content_length. Qed.
+
+(** So the condition is exact ... *)
+Theorem c05_complete_iff : forall c h rest,
+  wf_resp_head h -> rh_status h <> 100 -> (List.length (rh_fields h) <= 128)%nat ->
+  ((exists c' o, call_try_response c (render_response_head h ++ rest) = Ok (c', o)) <-> cl_acceptable h).
+Proof. exact try_response_ok_iff. Qed.
+
+(** ... and it is "the first Content-Length is text and C06's rule list is not in its error case". *)
+Theorem c05_acceptable_is_framing : forall m h,
+  cl_acceptable h <->
+  (forall v, first_field (s2b "content-length") (rh_fields h) = Some v -> rfc_text v = true) /\
+  framing_of m h <> Err BadContentLengthHeader.
+Proof. exact cl_acceptable_framing. Qed.
+
+(** ** B. "all header fields, repeated names with their values in order", without [hm_of_list].
+    For ANY field list [l] (proofs/C05_hmap.v; [norm_header] lower-cases the name, [fields_named k l] filters [l]): *)
+
+(** looking a name up gives the values of the fields of that name, in the order of the list; *)
+Theorem c05_get_all_of_list : forall l k,
+  hm_get_all (hm_of_list l) k = map snd (filter (fun h => beq_bytes k (lower (fst h))) l).
+Proof. exact hm_get_all_of_list. Qed.
+
+(** iterating over the map gives every field of the list exactly once and nothing else ... *)
+Theorem c05_iter_of_list_perm : forall l,
+  Permutation.Permutation (hm_iter (hm_of_list l)) (map norm_header l).
+Proof. exact hm_iter_of_list_perm. Qed.
+
+(** ... in an order that only groups equal names: the fields of any one name keep the order of the list ... *)
+Theorem c05_iter_of_list_stable : forall l k,
+  filter (fun e : header => beq_bytes k (fst e)) (hm_iter (hm_of_list l)) =
+  filter (fun e : header => beq_bytes k (fst e)) (map norm_header l).
+Proof. exact hm_iter_of_list_stable. Qed.
+
+(** ... and the names come in the order of their first occurrence, each once. *)
+Theorem c05_keys_of_list : forall l,
+  map fst (hm_of_list l) = first_names [] l /\ NoDup (map fst (hm_of_list l)).
+Proof. intros l. split; [exact (hm_keys_of_list l)|exact (hm_of_list_keys_nodup l)]. Qed.
+
+(** The field clause of the property in these terms: whenever a response is handed out for H ++ rest, it has
+    H's version and status, |H| bytes are consumed, and its header map holds exactly H's fields
+    ([norm_field]: lower-cased name, value without the surrounding white space), the values of each name in
+    H's order. *)
+Theorem c05_complete_fields : forall c h rest c' used r,
+  wf_resp_head h -> rh_status h <> 100 -> (List.length (rh_fields h) <= 128)%nat ->
+  call_try_response c (render_response_head h ++ rest) = Ok (c', Some (used, r)) ->
+  used = len (render_response_head h) /\ rs_version r = rh_version h /\ rs_status r = rh_status h /\
+  (forall k, hm_get_all (rs_headers r) k = map f_value (fields_called k (rh_fields h))) /\
+  Permutation.Permutation (hm_iter (rs_headers r)) (map norm_field (rh_fields h)) /\
+  (forall k, filter (fun e : header => beq_bytes k (fst e)) (hm_iter (rs_headers r)) =
+             filter (fun e : header => beq_bytes k (fst e)) (map norm_field (rh_fields h))).
+Proof. exact try_response_fields. Qed.
+
+(** ** C. Prefixes of heads of any size, and the flow level ([Flow<RecvResponse>::try_response]) *)
+
+(** A strict prefix in which at most 128 field lines are complete -- however many fields H has -- outside the
+    known class: need more data ([c05_prefix] is the special case of heads within the limit) ... *)
+Theorem c05_prefix_over_limit : forall c h p x,
+  wf_resp_head h -> render_response_head h = p ++ x -> x <> [] ->
+  (List.length (complete_fields h p) <= 128)%nat -> ~ KnownClass h p ->
+  call_try_response c p = Ok (c, None).
+Proof. exact try_response_prefix_any. Qed.
+
+(** ... and any prefix (H itself included) in which the 129th field line is complete: the error. *)
+Theorem c05_prefix_over_limit_err : forall c h p x,
+  wf_resp_head h -> render_response_head h = p ++ x ->
+  (128 < List.length (complete_fields h p))%nat ->
+  call_try_response c p = Err HttpParseTooManyHeaders.
+Proof. exact try_response_prefix_over. Qed.
+
+(** At the flow: every strict prefix outside the known class leaves the flow as it was, 0 consumed, no response. *)
+Theorem c05_flow_prefix : forall f h p x,
+  i_holder f = HRecvResponse -> wf_resp_head h -> (List.length (rh_fields h) <= 128)%nat ->
+  render_response_head h = p ++ x -> x <> [] -> ~ KnownClass h p ->
+  recv_try_response f p = Ok (f, 0, None).
+Proof. exact recv_prefix_within. Qed.
+
+Theorem c05_flow_prefix_over_limit : forall f h p x,
+  i_holder f = HRecvResponse -> wf_resp_head h -> render_response_head h = p ++ x -> x <> [] ->
+  (List.length (complete_fields h p) <= 128)%nat -> ~ KnownClass h p ->
+  recv_try_response f p = Ok (f, 0, None).
+Proof. exact recv_prefix. Qed.
+
+Theorem c05_flow_prefix_over_limit_err : forall f h p x,
+  i_holder f = HRecvResponse -> wf_resp_head h -> render_response_head h = p ++ x ->
+  (128 < List.length (complete_fields h p))%nat ->
+  recv_try_response f p = Err HttpParseTooManyHeaders.
+Proof. exact recv_prefix_over. Qed.
+
+(** H or more at the flow (close reasons duplicate-free, as in every reachable flow: C10): H's response, |H|
+    consumed; the flow records H's status and the value of the LAST Location field, holds the reader selected by
+    C06's rule list, and gains ServerConnectionClose exactly when H has a field "Connection: close". *)
+Theorem c05_flow_complete : forall f h rest,
+  i_holder f = HRecvResponse -> NoDup (i_reasons f) ->
+  wf_resp_head h -> rh_status h <> 100 -> (List.length (rh_fields h) <= 128)%nat -> cl_acceptable h ->
+  exists f' rd,
+    recv_try_response f (render_response_head h ++ rest) =
+      Ok (f', len (render_response_head h), Some (response_of h)) /\
+    framing_of (am_method (c_req (i_call f))) h = Ok rd /\
+    i_call f' = set_reader (i_call f) (Some rd) /\ i_holder f' = HRecvResponse /\
+    i_status f' = Some (rh_status h) /\
+    i_location f' = last_opt (map f_value (fields_called (s2b "location") (rh_fields h))) /\
+    NoDup (i_reasons f') /\
+    (forall x, In x (i_reasons f') <->
+               In x (i_reasons f) \/ (x = ServerConnectionClose /\ server_close (rh_fields h) = true)).
+Proof. exact recv_complete. Qed.
+
+Theorem c05_flow_bad_content_length : forall f h rest v,
+  i_holder f = HRecvResponse -> wf_resp_head h -> rh_status h <> 100 -> (List.length (rh_fields h) <= 128)%nat ->
+  first_field (s2b "content-length") (rh_fields h) = Some v -> ~ cl_numeric v ->
+  recv_try_response f (render_response_head h ++ rest) = Err BadContentLengthHeader.
+Proof. exact recv_bad_content_length. Qed.
+
+(** ** D. "Well-formed" without the model's tables.  proofs/C05_rfc_bytes.v writes the byte classes from RFC 5234 /
+    9110 / 9112 ([rfc_tchar], [rfc_field_content_byte], [rfc_field_vchar], [rfc_ows_byte], [rfc_reason_byte]) and the
+    well-formedness predicates over them ([rfc_wf_field], [rfc_wf_resp_head]); they are the predicates used above. *)
+Theorem c05_tchar_table : forall b, is_name_token b = rfc_tchar b.
+Proof. exact name_token_is_tchar. Qed.
+
+Theorem c05_field_value_table : forall b, is_value_token b = rfc_field_content_byte b.
+Proof. exact value_token_is_field_content. Qed.
+
+Theorem c05_ows_table : forall b, is_sp_tab b = rfc_ows_byte b.
+Proof. exact sp_tab_is_ows. Qed.
+
+(** The model's reason-phrase class has no upper bound: equal on bytes (it is applied to bytes only). *)
+Theorem c05_reason_table : forall b, b < 256 -> is_reason_byte b = rfc_reason_byte b.
+Proof. exact reason_byte_is_rfc. Qed.
+
+(** "text" (for Content-Length): VCHAR / SP / HTAB. *)
+Theorem c05_text_table : forall b, is_visible_ascii b = rfc_VCHAR b || rfc_SP b || rfc_HTAB b.
+Proof. exact visible_ascii_is_rfc. Qed.
+
+Theorem c05_rfc_wf_field : forall f, rfc_wf_field f <-> wf_field f.
+Proof. exact rfc_wf_field_iff. Qed.
+
+(** Every theorem of this file stated for [wf_resp_head] holds for every RFC-well-formed head ... *)
+Theorem c05_rfc_wf : forall h, rfc_wf_resp_head h -> wf_resp_head h.
+Proof. exact rfc_wf_resp_head_wf. Qed.
+
+(** ... and [wf_resp_head] admits nothing else, as long as the reason phrase is made of bytes. *)
+Theorem c05_rfc_wf_conv : forall h,
+  wf_resp_head h -> (match rh_reason h with None => True | Some r => forallb (fun b => b <? 256) r = true end) ->
+  rfc_wf_resp_head h.
+Proof. exact wf_resp_head_rfc_wf. Qed.
+
+(** ** Non-vacuity of the additions *)
+
+(** [cl_head] (proofs/C05_more_examples.v) is  HTTP/1.1 200 OK / Content-Length: 5 / content-length: x /
+    Transfer-Encoding: gzip / Connection: close / Location: /a / LOCATION: /b  (129 bytes): acceptable (the second
+    Content-Length is not looked at), delivered with a 5-byte body reader; and four heads refused for their
+    Content-Length: "+5", empty, "5<0xC8>" (not text), 2^64; 2^64-1 is accepted. *)
+Example c05_cl_nonvacuous :
+  wf_resp_head cl_head /\ rfc_wf_resp_head cl_head /\ cl_acceptable cl_head /\
+  framing_of GET cl_head = Ok (RLength 5) /\
+  call_try_response demo_call (render_response_head cl_head ++ s2b "hello") =
+    Ok (set_reader demo_call (Some (RLength 5)), Some (129, response_of cl_head)) /\
+  hm_get_all (rs_headers (response_of cl_head)) (s2b "location") = [s2b "/a"; s2b "/b"] /\
+  (forall v, In v [s2b "+5"; []; [53; 200]; s2b "18446744073709551616"] ->
+     wf_resp_head (cl_head_with v) /\ ~ cl_numeric v /\
+     first_field (s2b "content-length") (rh_fields (cl_head_with v)) = Some v /\
+     call_try_response demo_call (render_response_head (cl_head_with v)) = Err BadContentLengthHeader) /\
+  cl_numeric (s2b "18446744073709551615") /\
+  call_try_response demo_call (render_response_head (cl_head_with (s2b "18446744073709551615"))) =
+    Ok (set_reader demo_call (Some (RLength 18446744073709551615)),
+        Some (63, response_of (cl_head_with (s2b "18446744073709551615")))).
+Proof.
+  split; [exact cl_head_wf|]. split; [apply wf_resp_head_rfc_wf; [exact cl_head_wf|reflexivity]|].
+  split; [exact cl_head_acceptable|].
+  split; [vm_compute; reflexivity|]. split; [vm_compute; reflexivity|]. split; [vm_compute; reflexivity|].
+  split; [|split; [split; [discriminate|split; vm_compute; reflexivity]|vm_compute; reflexivity]].
+  intros v Hv. cbn [In] in Hv.
+  assert (Hnot : forall w, (w = [] \/ forallb rfc_DIGIT w = false \/ 2 ^ 64 <= dec_value w) -> ~ cl_numeric w).
+  { intros w Hw (H1 & H2 & H3). destruct Hw as [Hw|[Hw|Hw]]; [congruence|congruence|].
+    apply N.lt_nge in H3. contradiction. }
+  destruct Hv as [<-|[<-|[<-|[<-|[]]]]];
+    (split; [apply cl_head_with_wf; reflexivity|]); (split; [|split; vm_compute; reflexivity]); apply Hnot.
+  - right. left. reflexivity.
+  - left. reflexivity.
+  - right. left. reflexivity.
+  - right. right. vm_compute. discriminate.
+Qed.
+
+(** [reached_flow] (proofs/C05_more_examples.v) is the flow the MODEL reaches by  new (GET http://a.test/x), proceed,
+    write the request head, proceed  ([Script.run_ops]); on it: prefixes of [cl_head] and of a 130-field head, the
+    complete head, a refused head. *)
+Example c05_flow_nonvacuous :
+  exists f,
+    reached_flow = Some f /\ i_holder f = HRecvResponse /\ NoDup (i_reasons f) /\
+    recv_try_response f (take 0 (render_response_head cl_head)) = Ok (f, 0, None) /\
+    recv_try_response f (take 70 (render_response_head cl_head)) = Ok (f, 0, None) /\
+    recv_try_response f (take 128 (render_response_head cl_head)) = Ok (f, 0, None) /\
+    ~ KnownClass cl_head (take 128 (render_response_head cl_head)) /\
+    (exists f', recv_try_response f (render_response_head cl_head ++ s2b "hello") =
+                  Ok (f', 129, Some (response_of cl_head)) /\
+                c_reader (i_call f') = Some (RLength 5) /\ i_status f' = Some 200 /\
+                i_location f' = Some (s2b "/b") /\ i_reasons f' = [ServerConnectionClose]) /\
+    recv_try_response f (render_response_head (cl_head_with (s2b "+5"))) = Err BadContentLengthHeader /\
+    (* 130 fields: 17 + 6*128 = 785 bytes hold 128 complete lines; 788 cuts the 129th, 791 completes it *)
+    List.length (complete_fields (many_fields 130) (take 788 (render_response_head (many_fields 130)))) = 128%nat /\
+    recv_try_response f (take 788 (render_response_head (many_fields 130))) = Ok (f, 0, None) /\
+    List.length (complete_fields (many_fields 130) (take 791 (render_response_head (many_fields 130)))) = 129%nat /\
+    recv_try_response f (take 791 (render_response_head (many_fields 130))) = Err HttpParseTooManyHeaders.
+Proof.
+  eexists. split; [vm_compute; reflexivity|]. split; [reflexivity|]. split; [constructor|].
+  split; [vm_compute; reflexivity|]. split; [vm_compute; reflexivity|]. split; [vm_compute; reflexivity|].
+  split; [intros [H _]; vm_compute in H; discriminate|].
+  split; [eexists; split; [vm_compute; reflexivity|repeat split]|].
+  repeat split; vm_compute; reflexivity.
+Qed.
+
+(** The early form of [c05_limit] (the review found no example): status line, 128 lines, the 129th, then garbage. *)
+Example c05_limit_early_nonvacuous :
+  rh_fields (many_fields 129) = firstn 128 (rh_fields (many_fields 129)) ++
+                                {| f_name := [97]; f_ows1 := [32]; f_value := [98]; f_ows2 := [] |} :: [] /\
+  call_try_response demo_call
+    (render_status_line (many_fields 129) ++ render_lines (firstn 128 (rh_fields (many_fields 129))) ++
+     render_field {| f_name := [97]; f_ows1 := [32]; f_value := [98]; f_ows2 := [] |} ++ [0; 255; 13]) =
+    Err HttpParseTooManyHeaders.
+Proof. split; vm_compute; reflexivity. Qed.
+
+(** The header-map characterisation on [demo_head] (Set-Cookie twice, around X-Empty). *)
+Example c05_fields_nonvacuous :
+  hm_get_all (rs_headers (response_of demo_head)) (s2b "set-cookie") = [s2b "a=1"; [98; 200; 32; 99]] /\
+  map f_value (fields_called (s2b "set-cookie") (rh_fields demo_head)) = [s2b "a=1"; [98; 200; 32; 99]] /\
+  hm_iter (rs_headers (response_of demo_head)) =
+    [(s2b "set-cookie", s2b "a=1"); (s2b "set-cookie", [98; 200; 32; 99]); (s2b "x-empty", [])] /\
+  map norm_field (rh_fields demo_head) =
+    [(s2b "set-cookie", s2b "a=1"); (s2b "x-empty", []); (s2b "set-cookie", [98; 200; 32; 99])].
+Proof. vm_compute. repeat split. Qed.
+
+(** The known class (F10) without model functions ([fields_before_empty]: proofs/C20_partial_spec.v). *)
+Theorem c05_known_class_spec : forall h p,
+  KnownClass h p <->
+  300 <= rh_status h <= 399 /\
+  fields_called (s2b "location") (fields_before_empty (complete_fields h p)) <> [].
+Proof. exact known_class_spec. Qed.
+
 Print Assumptions c05_hp_stable.
 Print Assumptions c05_hp_stable_complete.
 Print Assumptions c05_hp_stable_error.
@@ -171,3 +447,33 @@ Print Assumptions c05_limit.
 Print Assumptions c05_limit_complete.
 Print Assumptions c05_nonvacuous.
 Print Assumptions c05_limit_nonvacuous.
+Print Assumptions c05_dec_value.
+Print Assumptions c05_complete_cl.
+Print Assumptions c05_bad_content_length.
+Print Assumptions c05_complete_iff.
+Print Assumptions c05_acceptable_is_framing.
+Print Assumptions c05_get_all_of_list.
+Print Assumptions c05_iter_of_list_perm.
+Print Assumptions c05_iter_of_list_stable.
+Print Assumptions c05_keys_of_list.
+Print Assumptions c05_complete_fields.
+Print Assumptions c05_prefix_over_limit.
+Print Assumptions c05_prefix_over_limit_err.
+Print Assumptions c05_flow_prefix.
+Print Assumptions c05_flow_prefix_over_limit.
+Print Assumptions c05_flow_prefix_over_limit_err.
+Print Assumptions c05_flow_complete.
+Print Assumptions c05_flow_bad_content_length.
+Print Assumptions c05_tchar_table.
+Print Assumptions c05_field_value_table.
+Print Assumptions c05_ows_table.
+Print Assumptions c05_reason_table.
+Print Assumptions c05_text_table.
+Print Assumptions c05_rfc_wf_field.
+Print Assumptions c05_rfc_wf.
+Print Assumptions c05_rfc_wf_conv.
+Print Assumptions c05_cl_nonvacuous.
+Print Assumptions c05_flow_nonvacuous.
+Print Assumptions c05_limit_early_nonvacuous.
+Print Assumptions c05_fields_nonvacuous.
+Print Assumptions c05_known_class_spec.
